@@ -210,6 +210,9 @@ CHECKS["C06"] = {
         H("c06.VH_winbox", {"L": 40}, {"L": 44}, covers=_c06cov, weight=2),
         H("c06.VH_openvpn", {"L": 58}, {"L": 90}, covers=_c06cov, validate=False),
         H("c06.VH_http", {"L": 16}, {"L": 24}, covers=["prefix needs more", "prefix says no"]),
+        # matcher SETS (and/or structure): "need more" of one set is not turned into a definite no by another
+        H("c02.VH_routes", {"R": 1, "SETS": 2, "L": 3, "ROUNDS": 3}, {"R": 1, "SETS": 2, "L": 4, "ROUNDS": 4}, variant="r1or", weight=3,
+          covers=["fallback ran", "terminal route ran", "matching aborted at end of stream"]),
     ],
     "level_text": "bounded model checking, per stream matcher: the real Match runs (through MatcherSet.Match, i.e. with freeze/unfreeze) on one symbolic byte string D and on every prefix D[:P] (P symbolic) under one path condition; asserted: no read from the network, buffer and read position unchanged, same verdict when repeated on the same connection, 'no' on a prefix stays 'no' on the whole, and a message that matches whole is never rejected or failed on a proper prefix (only 'need more' or already 'yes')",
     "level_note": "per-matcher length bounds as listed; HTTP only for inputs its request-line heuristic does not accept (beyond that it is net/http); DNS excluded (its third-party parser is a havoc stub and therefore not a function of the bytes); openvpn with ignore_timestamp; TLS without sub-matchers",
